@@ -738,8 +738,11 @@ func c05Exec(c Case, prop string) (outs []string, fails []Failure, tags []string
 				}
 				out = "ok"
 			case "ptx":
-				out = "skip"
-				c05Ptx(f, prop, c[i:i+1], &fails, &tags)
+				// the output line is the reading of the script (the reference the transaction is judged against), which the
+				// Lean model computes too (Model/Script.lean: evalToks, proved to conserve coins for every script)
+				var line string
+				out, line = c05Ptx(f, prop, c[i:i+1], &fails, &tags)
+				c[i] = line
 			case "dtx":
 				out = "skip"
 				c05Dtx(f, prop, c[i:i+1], &fails, &tags)
@@ -867,7 +870,8 @@ func c05Exec(c Case, prop string) (outs []string, fails []Failure, tags []string
 }
 
 // c05Ptx runs one puppet transaction on the real application and evaluates the C05 / C02 predicates on it.
-func c05Ptx(f []string, prop string, line Case, fails *[]Failure, tags *[]string) {
+func c05Ptx(f []string, prop string, line Case, fails *[]Failure, tags *[]string) (refOut string, opLine string) {
+	refOut, opLine = "skip", strings.Join(f, " ")
 	puppetSetup()
 	nw, _ := fixture()
 	kv := vmKV(f)
@@ -924,7 +928,31 @@ func c05Ptx(f []string, prop string, line Case, fails *[]Failure, tags *[]string
 		pre[k] = nw.App.EvmKeeper.GetState(ctx, puppetAddr, common.BigToHash(big.NewInt(int64(k)))).Big().Int64()
 	}
 	ref.slots = pre
+	optS := func(x *big.Int) string {
+		if x == nil {
+			return "-"
+		}
+		return x.String()
+	}
+	scriptS := kv["script"]
+	if scriptS == "" {
+		scriptS = "-"
+	}
+	// the op line as the Lean driver reads it: ptx <value> <pending E> <pending P> <slot0,slot1,slot2> <script> # …
+	var rest []string
+	for j, t := range f {
+		if t == "#" {
+			for _, u := range f[j+1:] {
+				if !strings.HasPrefix(u, "value=") && !strings.HasPrefix(u, "script=") {
+					rest = append(rest, u)
+				}
+			}
+			break
+		}
+	}
+	opLine = fmt.Sprintf("ptx %s %s %s %d,%d,%d %s # value=%s script=%s %s", value, optS(ref.pendE), optS(ref.pendP), pre[0], pre[1], pre[2], scriptS, value, kv["script"], strings.Join(rest, " "))
 	sc := puppetCompile(toks, &ref, nw.GetValidators()[0].OperatorAddress)
+	refOut = fmt.Sprintf("ref dE=%s dP=%s dX=%s bondE=%s bondP=%s logs=%d slots=%d,%d,%d", ref.dE, ref.dP, ref.dX, ref.bondE, ref.bondP, ref.logs, ref.slots[0], ref.slots[1], ref.slots[2])
 	o := puppetRun(value, sc.bytes, gas)
 	fl := func(sig, what string) {
 		*fails = append(*fails, Failure{Signature: sig, What: what + "\n  observed: " + o.String(), Case: line})
@@ -932,7 +960,7 @@ func c05Ptx(f []string, prop string, line Case, fails *[]Failure, tags *[]string
 	if o.code != 0 {
 		// rejected before execution (ante / intrinsic gas): nothing to judge
 		*tags = append(*tags, "ptx-rejected")
-		return
+		return refOut, opLine
 	}
 	if o.failed {
 		// the transaction failed as a whole: nothing but the fee and the nonce may change
@@ -983,7 +1011,7 @@ func c05Ptx(f []string, prop string, line Case, fails *[]Failure, tags *[]string
 		if !ok {
 			fl(known("C05:tx:reverted-frame-leaves-trace"), strings.Join(diffs, "; "))
 		}
-		return
+		return refOut, opLine
 	}
 	// C02
 	ok := true
@@ -1001,4 +1029,5 @@ func c05Ptx(f []string, prop string, line Case, fails *[]Failure, tags *[]string
 		}
 		fl(sig, strings.Join(diffs, "; "))
 	}
+	return refOut, opLine
 }
